@@ -118,7 +118,7 @@ type Input struct {
 func (in *Interp) fresh(tag string, w int) *smt.Term {
 	n := in.symCount[tag]
 	in.symCount[tag] = n + 1
-	name := fmt.Sprintf("%s!%d", sanitize(tag), n)
+	name := freshName(tag, n, w)
 	if in.eng.ReplayModel != nil {
 		// concrete re-execution of a counterexample inside the interpreter
 		v, ok := in.eng.ReplayModel[name]
@@ -133,6 +133,14 @@ func (in *Interp) fresh(tag string, w int) *smt.Term {
 	t := in.ctx.Var(name, w)
 	in.freshTerms = append(in.freshTerms, t)
 	return t
+}
+
+// freshName names the n-th symbol created under a tag. The width is part of
+// the name: a harness may use one tag for values of different widths, and on
+// different paths the n-th one need not have the same width, while a solver
+// context declares each name once.
+func freshName(tag string, n, w int) string {
+	return fmt.Sprintf("%s!%d.%d", sanitize(tag), n, w)
 }
 
 func sanitize(s string) string {
@@ -198,6 +206,7 @@ func (in *Interp) Branch(c *smt.Term) bool {
 	}
 	if rt == smt.Unknown || rf == smt.Unknown {
 		in.res.UnknownBranches++
+		dbg("unknown branch at %s: %s", in.site(), in.sol.LastErr)
 	}
 	alt := append(append([]int(nil), in.trace...), 0<<1)
 	in.pending = append(in.pending, alt)
